@@ -2,13 +2,13 @@
 # After tools/incoming_matrix.sh: copies up to two shrunk killers (JSON replay files) per seeded change into
 # replays/regress/<prop>/ so that every quick run replays them first. Only files that pass on the clean tree are kept.
 cd /verif
-for log in work/matrix.C*-*.log; do
+for log in work/matrix.C*-*.log; do case "$log" in *matrix.C19-*) continue;; esac
   id=$(basename $log .log); id=${id#matrix.}; c=${id%-*}
   k=0
   grep '^VIOLATION' $log | sed 's/.*replay=//' | while read f; do
     case "$f" in *.json) ;; *) continue;; esac
     [ -f "$f" ] || continue
-    k=$((k+1)); [ $k -le 2 ] || break
+    k=$((k+1)); [ $k -le 1 ] || break
     mkdir -p replays/regress/$c
     cp "$f" replays/regress/$c/seeded-$id-$k.json
   done
